@@ -27,13 +27,13 @@ ASSUMPTIONS = [
     "Zarr's own incidental read of an edge chunk is not a cubed-level read-modify-write and does not decide",
 ]
 NSHARDS = {"quick": 16, "thorough": 32}
-PER_SHARD = {"quick": 80, "thorough": 1400}
+PER_SHARD = {"quick": 80, "thorough": 480}
 
 
 def shards(tier, seed):
     return [
         {"n": PER_SHARD[tier], "maxdim": 9 if tier == "quick" else 13, "depth": 4 if tier == "quick" else 6,
-         "stores": 60 if tier == "quick" else 1000, "watchdog_s": TIMEOUT[tier] - 30}
+         "stores": 60 if tier == "quick" else 360, "watchdog_s": TIMEOUT[tier] - 30}
         for _ in range(NSHARDS[tier])
     ]
 
@@ -263,9 +263,9 @@ def finalize(tier, merged):
     return {
         "rule": RULE,
         "floors": [
-            ("stored-chunk writes attributed to tasks", c.get("chunk_sets", 0), 15000 if tier == "quick" else 300000),
-            ("produced arrays whose grid coverage was checked", c.get("arrays_checked", 0), 2500 if tier == "quick" else 50000),
-            ("block writes into user-supplied store targets observed", c.get("target_block_writes", 0), 1500 if tier == "quick" else 30000),
+            ("stored-chunk writes attributed to tasks", c.get("chunk_sets", 0), 15000 if tier == "quick" else 150000),
+            ("produced arrays whose grid coverage was checked", c.get("arrays_checked", 0), 2500 if tier == "quick" else 25000),
+            ("block writes into user-supplied store targets observed", c.get("target_block_writes", 0), 1500 if tier == "quick" else 15000),
         ],
         "assumptions": ASSUMPTIONS,
     }
